@@ -216,9 +216,6 @@ func spec_csCnt(s *ImmuStore) bool {
 //@   ensures ok_palh: r0 == nil ==> s.inmemPrecommittedAlh == tx.header.Alh()
 //@   ensures bad_cid: r0 != nil ==> s.committedTxID == old(s.committedTxID)
 //@   ensures bad_calh: r0 != nil ==> s.committedAlh == old(s.committedAlh)
-//@   ensures bad_pid: r0 != nil ==> s.inmemPrecommittedTxID == old(s.inmemPrecommittedTxID)
-//@   ensures bad_palh: r0 != nil ==> s.inmemPrecommittedAlh == old(s.inmemPrecommittedAlh)
-//@   ensures bad_sz: r0 != nil ==> s.precommittedTxLogSize == old(s.precommittedTxLogSize)
 //@   ensures mono: s.committedTxID >= old(s.committedTxID)
 //@   ensures inv: spec_csInv(s)
 //@   ensures keep_hdr: tx.header == old(tx.header)
@@ -226,6 +223,15 @@ func spec_csCnt(s *ImmuStore) bool {
 //@   ensures keep_nent: tx.header.NEntries == old(tx.header.NEntries)
 //@   ensures keep_eh: tx.header.Eh == old(tx.header.Eh)
 //@   ensures keep_md: tx.header.Metadata == old(tx.header.Metadata)
+// last on purpose: at `return s.mayCommit()` these three are false (D3: the precommit has already taken effect when the
+// commit fails); a failed obligation is assumed by the ones after it, so nothing may follow them.
+//@   ensures bad_pid: r0 != nil ==> s.inmemPrecommittedTxID == old(s.inmemPrecommittedTxID)
+//@   ensures bad_palh: r0 != nil ==> s.inmemPrecommittedAlh == old(s.inmemPrecommittedAlh)
+//@   ensures bad_sz: r0 != nil ==> s.precommittedTxLogSize == old(s.precommittedTxLogSize)
+// ASSUMED frame (`internal`): besides the objects listed, the function writes the vOff fields of the pooled holders
+// tx.entries[i] (scratch space of the tx pool; no caller reads them after the call) and state behind the appendable,
+// cache, hash-tree and watcher interfaces.
+//@   assigns internal, s, s.cLogBuf, s.cLogBuf.buf[(s.cLogBuf.wpos + 1) % len(s.cLogBuf.buf)], tx.header, s._txbs
 //@   loop 3 assigns *
 //@   loop 3 invariant v_s: unchanged(s)
 //@   loop 3 invariant v_buf: unchanged(s.cLogBuf)
